@@ -110,7 +110,7 @@ def _enum(tier, shard, nshards):
 
 
 PHASES = [
-    HypPhase("txt", _txt, dict(quick=1500, thorough=15000)),
+    HypPhase("txt", _txt, dict(quick=2500, thorough=15000)),
     HypPhase("string", _string, dict(quick=500, thorough=5000)),
     HypPhase("series", _series, dict(quick=800, thorough=8000)),
     EnumPhase("matrices", _enum,
